@@ -78,12 +78,12 @@ def verify_unit(uname, extra=(), want_vac=True, tag=""):
         f.write(unit.text())
     jobs = {}
     with cf.ThreadPoolExecutor(max_workers=2) as ex:
-        jobs["main"] = ex.submit(verus.run_verus, unit.gen_path, ["--multiple-errors", "5"] + list(extra))
+        jobs["main"] = ex.submit(verus.run_verus, unit.gen_path, ["--multiple-errors", "5", "--rlimit", str(unit.rlimit)] + list(extra))
         if want_vac:
             vunit.gen_path = os.path.join(BUILD, crate + "_vac.rs")
             with open(vunit.gen_path, "w") as f:
                 f.write(vunit.text())
-            jobs["vac"] = ex.submit(verus.run_verus, vunit.gen_path, ["--multiple-errors", "1"])
+            jobs["vac"] = ex.submit(verus.run_verus, vunit.gen_path, ["--multiple-errors", "1", "--rlimit", str(unit.rlimit)])
         res = {k: v.result() for k, v in jobs.items()}
     main = res["main"]
     summ = verus.summarize(main)
@@ -137,7 +137,7 @@ def second_opinion(u, failure):
     short = target.split("::", 1)[1]
     runs = []
     for seed in (0, 1, 2):
-        r = verus.run_verus(unit.gen_path, ["--verify-root", "--verify-function", short, "--rlimit", "100",
+        r = verus.run_verus(unit.gen_path, ["--verify-root", "--verify-function", short, "--rlimit", str(10 * unit.rlimit),
                                             "--smt-option", "smt.random_seed=%d" % seed, "--multiple-errors", "5"])
         s = verus.summarize(r)
         fl, _ = verus.classify(r, unit)
